@@ -1068,6 +1068,10 @@ def check_has_overrides(res, facts):
                 if isinstance(x, tuple) and x and x[0] in ("call", "ucall") and str(x[1]).rsplit("::", 1)[-1] == "is_empty" and \
                         isinstance(rv, tuple) and rv and rv[0] in ("call", "ucall") and str(rv[1]).rsplit("::", 1)[-1] == "len":
                     ok = strip_refs(canon(x[2][0])) == strip_refs(canon(rv[2][0]))
+            if not ok and im["self_ty"].startswith("std::io::Cursor") and trait == BUF:
+                # position / length arithmetic: decided by what it computes (false where position >= len, true where position < len), linear domain
+                from .r_c7 import cursor_semantic
+                ok = not cursor_semantic(facts, hb, "has")
             if ok:
                 res.ok(key, hb.loc(), "%s" % fmt_expr(hv)[:80], nontrivial=True)
             else:
